@@ -8,6 +8,7 @@ import (
 	"io"
 	"os"
 	"path/filepath"
+	"strings"
 
 	"github.com/inbucket/inbucket/v3/pkg/extension"
 	"github.com/inbucket/inbucket/v3/pkg/extension/event"
@@ -16,6 +17,7 @@ import (
 )
 
 var _ = stringutil.HashMailboxName
+var _ = strings.ReplaceAll
 
 var _ extension.Host
 var _ = filepath.Dir
@@ -54,12 +56,14 @@ func ghost_emitted(eb *extension.AsyncEventBroker[event.MessageMetadata]) vcSeq[
 // R1 (crash invariant of every index update): the index is absent or it is a complete stream.
 //@ pred spec_idxSafe(p string) bool = !ghost_exists(p) || ghost_complete(p)
 
-// R2 (crash invariant of every update): every message that a readable index lists has its content file.
+// R2 (crash invariant of every update): every message that a readable index lists has its content file,
+// completely written (everything handed to its buffered writer has been flushed).
 //@ pred spec_listedHaveRaw(idx string, dir string) bool = !(ghost_exists(idx) && ghost_complete(idx)) ||
-//@     forall i int :: { vcSeqAt(ghost_idxIDs(idx), i) } 0 <= i && i < ghost_items(idx)-1 ==> ghost_exists(filepath.Join(dir, vcSeqAt(ghost_idxIDs(idx), i)+".raw"))
+//@     forall i int :: { vcSeqAt(ghost_idxIDs(idx), i) } 0 <= i && i < ghost_items(idx)-1 ==>
+//@        ghost_exists(filepath.Join(dir, vcSeqAt(ghost_idxIDs(idx), i)+".raw")) && ghost_complete(filepath.Join(dir, vcSeqAt(ghost_idxIDs(idx), i)+".raw"))
 // ... and so has every entry of the list held in memory (which is what the next index will list).
 //@ pred spec_memHaveRaw(mb *mbox) bool = forall a int :: { vcSeqAt(vcElemsOf(mb.messages), a) } vcOff(mb.messages) <= a && a < vcOff(mb.messages)+len(mb.messages) ==>
-//@     ghost_exists(filepath.Join(mb.path, vcSeqAt(vcElemsOf(mb.messages), a).Fid+".raw"))
+//@     ghost_exists(filepath.Join(mb.path, vcSeqAt(vcElemsOf(mb.messages), a).Fid+".raw")) && ghost_complete(filepath.Join(mb.path, vcSeqAt(vcElemsOf(mb.messages), a).Fid+".raw"))
 // ASSUMED wherever R2 is stated (as a hypothesis about the entry state): a content file is never the
 // index, its temporary, the mailbox directory or one of its two parents (ids are timestamps followed
 // by a counter; the index is called index.gob).
@@ -243,6 +247,15 @@ func spec_decoded(path string, k int, v any) bool {
 //@   crashinv[indexReadable] spec_idxSafe(mb.indexPath) || !old(spec_idxSafe(mb.indexPath))
 //@   requires[r2 C11] spec_r2In(mb)
 //@   crashinv[listedHaveRaw C11] spec_listedHaveRaw(mb.indexPath, mb.path)
+// All or nothing for the index itself: at every crash point it is what it was when the update began, or
+// it is the complete new index (the list in memory; no index at all when that list is empty).
+//@   crashinv[oldOrNew C11] (ghost_exists(mb.indexPath) == old(ghost_exists(mb.indexPath)) && ghost_complete(mb.indexPath) == old(ghost_complete(mb.indexPath)) &&
+//@        ghost_items(mb.indexPath) == old(ghost_items(mb.indexPath)) &&
+//@        forall i int :: { vcSeqAt(ghost_idxIDs(mb.indexPath), i) } vcSeqAt(ghost_idxIDs(mb.indexPath), i) == old(vcSeqAt(ghost_idxIDs(mb.indexPath), i))) ||
+//@      (len(mb.messages) == 0 && !ghost_exists(mb.indexPath)) ||
+//@      (len(mb.messages) > 0 && ghost_exists(mb.indexPath) && ghost_complete(mb.indexPath) && ghost_items(mb.indexPath) == len(mb.messages) + 1 &&
+//@        forall i int :: { vcSeqAt(ghost_idxIDs(mb.indexPath), i) } 0 <= i && i < len(mb.messages) ==>
+//@           vcSeqAt(ghost_idxIDs(mb.indexPath), i) == vcSeqAt(vcElemsOf(mb.messages), vcOff(mb.messages)+i).Fid)
 //@   ensures[stillSafe C11] spec_idxSafe(mb.indexPath) || !old(spec_idxSafe(mb.indexPath))
 //@   ensures[stillHaveRaw C11] spec_listedHaveRaw(mb.indexPath, mb.path)
 //@   ensures[failureKeepsIndex C11] ret != nil && len(mb.messages) > 0 ==> ghost_exists(mb.indexPath) == old(ghost_exists(mb.indexPath)) && ghost_complete(mb.indexPath) == old(ghost_complete(mb.indexPath)) &&
@@ -342,6 +355,13 @@ func spec_decoded(path string, k int, v any) bool {
 // any preceding history"), with the assumption that its ids are unique.
 //@ pred spec_r2Top(fs *Store, mailbox string) bool = spec_idxSafe(spec_indexPath(fs, mailbox)) && spec_listedHaveRaw(spec_indexPath(fs, mailbox), spec_mboxPath(fs, mailbox)) &&
 //@     spec_idxRawsDistinct(spec_indexPath(fs, mailbox), spec_mboxPath(fs, mailbox))
+
+// Opening a store changes nothing on disk, except that the mail directory exists afterwards: a restart
+// works from exactly what the last process left (C10), whatever state a crash left it in (C11).
+//@ func New
+//@   modifies ghost_exists(filepath.Join(strings.ReplaceAll(cfg.Params["path"], "$", ":"), "mail"))
+//@   ensures[opened] ret1 == nil ==> ret0 != nil
+//@   serves C10 C11
 
 //@ pred spec_storeOK(fs *Store) bool = fs != nil && fs.extHost != nil && fs.extHost.Events != nil
 
